@@ -63,6 +63,9 @@ def _ops(rng, m, cobra):
         ("add_cons_vars", lambda: m.add_cons_vars([P.Constraint(r.flux_expression + r2.forward_variable, lb=-1, ub=7,
                                                                   name="user_c_%d" % rng.randrange(10 ** 6))])),
         ("add_var", lambda: m.add_cons_vars([P.Variable("user_v_%d" % rng.randrange(10 ** 6), lb=0, ub=4)])),
+        # calls the solver interface rejects (wrong kind of object, misspelt keyword): nothing is added, nothing may stay behind
+        ("add_cons_vars_rejected", lambda: m.add_cons_vars([r])),
+        ("add_cons_vars_bad_keyword", lambda: m.add_cons_vars([P.Variable("user_w_%d" % rng.randrange(10 ** 6))], slopy=True)),
         ("iadd", lambda: r.__iadd__(r2) if r is not r2 else None),
         ("isub", lambda: r.__isub__(r2) if r is not r2 else None),
         ("imul", lambda: r.__imul__(rng.choice([2, -1, 0.5]))),
